@@ -31,13 +31,14 @@ type Program struct {
 	byName  map[string]*ssa.Function
 	NFiles  int
 
-	cellsOnce  bool
-	fvBinding  map[*ssa.FreeVar][]ssa.Value // free variable -> values bound at MakeClosure sites
-	closureOf  map[*ssa.Function][]*ssa.MakeClosure
-	cg         *CallGraph
-	roles      *Roles
-	takenCache map[*ssa.Function]bool
-	reqTaint   map[ssa.Value]bool
+	cellsOnce    bool
+	fvBinding    map[*ssa.FreeVar][]ssa.Value // free variable -> values bound at MakeClosure sites
+	closureOf    map[*ssa.Function][]*ssa.MakeClosure
+	cg           *CallGraph
+	roles        *Roles
+	takenCache   map[*ssa.Function]bool
+	reqTaint     map[ssa.Value]bool
+	alwaysStatus map[*ssa.Function]bool
 }
 
 type loadOptions struct {
